@@ -129,16 +129,34 @@ Fixpoint ms_walk (sigs keys : list bytes) (code : bytes) : bool :=
       end
   end.
 
+(* the opcode table: number -> name (Bitcoin Core's opcodetype) *)
+Definition ref_kind (op : Z) : kind :=
+  match op with
+  | 0x4f => KSmall
+  | 0x61 => KNop | 0x63 => KIf false | 0x64 => KIf true | 0x67 => KElse | 0x68 => KEndif | 0x69 => KVerify | 0x6a => KReturn
+  | 0x6b => KToAlt | 0x6c => KFromAlt | 0x6d => K2Drop | 0x6e => K2Dup | 0x6f => K3Dup | 0x70 => K2Over | 0x71 => K2Rot
+  | 0x72 => K2Swap | 0x73 => KIfdup | 0x74 => KDepth | 0x75 => KDrop | 0x76 => KDup | 0x77 => KNip | 0x78 => KOver
+  | 0x79 => KPickRoll false | 0x7a => KPickRoll true | 0x7b => KRot | 0x7c => KSwap | 0x7d => KTuck | 0x82 => KSize
+  | 0x87 => KEqual | 0x88 => KEqualVerify
+  | 0x8b | 0x8c | 0x8f | 0x90 | 0x91 | 0x92 => KUn
+  | 0x93 | 0x94 | 0x9a | 0x9b | 0x9c | 0x9d | 0x9e | 0x9f | 0xa0 | 0xa1 | 0xa2 | 0xa3 | 0xa4 => KBin
+  | 0xa5 => KWithin | 0xa6 => KRipemd | 0xa7 => KSha1 | 0xa8 => KSha256 | 0xa9 => KHash160 | 0xaa => KHash256
+  | 0xab => KCodesep | 0xac => KChecksig false | 0xad => KChecksig true | 0xae => KMultisig false | 0xaf => KMultisig true
+  | _ => if (0x51 <=? op) && (op <=? 0x60) then KSmall                 (* OP_1 .. OP_16 *)
+         else if (0xb0 <=? op) && (op <=? 0xb9) then KNopN             (* NOP1 .. NOP10 *)
+         else KBad                                                     (* RESERVED, VER, VERIF…, 0xba..0xff *)
+  end.
+
 Definition exec_op (op : Z) (rest : bytes) (s : rstate) : option rstate :=
   let st := r_stack s in
   let ret st' := Some (with_stack s st') in
-  if (op =? 0x4f) || ((0x51 <=? op) && (op <=? 0x60)) then ret (ref_enc (op - 0x50) :: st)
-  else match un_arith op 0, bin_arith op 0 0 with
-  | Some _, _ =>                                       (* 1ADD 1SUB NEGATE ABS NOT 0NOTEQUAL *)
+  match ref_kind op with
+  | KSmall => ret (ref_enc (op - 0x50) :: st)                                  (* 1NEGATE, 1..16 *)
+  | KUn =>                                                                     (* 1ADD 1SUB NEGATE ABS NOT 0NOTEQUAL *)
       match st with
       | a :: r => match ref_num a with Some x => match un_arith op x with Some v => ret (ref_enc v :: r) | None => None end | None => None end
       | _ => None end
-  | _, Some _ =>                                       (* ADD … MAX, NUMEQUALVERIFY *)
+  | KBin =>                                                                    (* ADD … MAX, NUMEQUALVERIFY *)
       match st with
       | b :: a :: r =>
           match ref_num a, ref_num b with
@@ -148,74 +166,69 @@ Definition exec_op (op : Z) (rest : bytes) (s : rstate) : option rstate :=
               | None => None end
           | _, _ => None end
       | _ => None end
-  | None, None =>
-  match op with
-  | 0x61 => ret st                                                            (* NOP *)
-  | 0x63 | 0x64 =>                                                            (* IF NOTIF *)
+  | KNop => ret st
+  | KIf neg =>
       if forallb (fun b => b) (r_vf s) then
         match st with
         | v :: r => let c := ref_bool v in
-                    Some {| r_stack := r; r_alt := r_alt s; r_vf := (if op =? 0x64 then negb c else c) :: r_vf s; r_sub := r_sub s; r_nop := r_nop s |}
+                    Some {| r_stack := r; r_alt := r_alt s; r_vf := (if neg then negb c else c) :: r_vf s; r_sub := r_sub s; r_nop := r_nop s |}
         | [] => None end
       else Some {| r_stack := st; r_alt := r_alt s; r_vf := false :: r_vf s; r_sub := r_sub s; r_nop := r_nop s |}
-  | 0x67 => match r_vf s with b :: v => Some {| r_stack := st; r_alt := r_alt s; r_vf := negb b :: v; r_sub := r_sub s; r_nop := r_nop s |} | [] => None end
-  | 0x68 => match r_vf s with _ :: v => Some {| r_stack := st; r_alt := r_alt s; r_vf := v; r_sub := r_sub s; r_nop := r_nop s |} | [] => None end
-  | 0x69 => match st with v :: r => if ref_bool v then ret r else None | [] => None end   (* VERIFY *)
-  | 0x6a => None                                                              (* RETURN *)
-  | 0x6b => match st with v :: r => Some {| r_stack := r; r_alt := v :: r_alt s; r_vf := r_vf s; r_sub := r_sub s; r_nop := r_nop s |} | [] => None end
-  | 0x6c => match r_alt s with v :: a => Some {| r_stack := v :: st; r_alt := a; r_vf := r_vf s; r_sub := r_sub s; r_nop := r_nop s |} | [] => None end
-  | 0x6d => match st with _ :: _ :: r => ret r | _ => None end                                      (* 2DROP *)
-  | 0x6e => match st with x2 :: x1 :: r => ret (x2 :: x1 :: x2 :: x1 :: r) | _ => None end           (* 2DUP *)
-  | 0x6f => match st with x3 :: x2 :: x1 :: r => ret (x3 :: x2 :: x1 :: x3 :: x2 :: x1 :: r) | _ => None end
-  | 0x70 => match st with x4 :: x3 :: x2 :: x1 :: r => ret (x2 :: x1 :: x4 :: x3 :: x2 :: x1 :: r) | _ => None end   (* 2OVER *)
-  | 0x71 => match st with x6 :: x5 :: x4 :: x3 :: x2 :: x1 :: r => ret (x2 :: x1 :: x6 :: x5 :: x4 :: x3 :: r) | _ => None end  (* 2ROT *)
-  | 0x72 => match st with x4 :: x3 :: x2 :: x1 :: r => ret (x2 :: x1 :: x4 :: x3 :: r) | _ => None end  (* 2SWAP *)
-  | 0x73 => match st with v :: r => if ref_bool v then ret (v :: v :: r) else ret st | [] => None end   (* IFDUP *)
-  | 0x74 => ret (ref_enc (lenZ st) :: st)                                                              (* DEPTH *)
-  | 0x75 => match st with _ :: r => ret r | [] => None end
-  | 0x76 => match st with v :: r => ret (v :: v :: r) | [] => None end
-  | 0x77 => match st with x2 :: _ :: r => ret (x2 :: r) | _ => None end                                 (* NIP *)
-  | 0x78 => match st with x2 :: x1 :: r => ret (x1 :: x2 :: x1 :: r) | _ => None end                    (* OVER *)
-  | 0x79 | 0x7a =>                                                                                      (* PICK ROLL *)
+  | KElse => match r_vf s with b :: v => Some {| r_stack := st; r_alt := r_alt s; r_vf := negb b :: v; r_sub := r_sub s; r_nop := r_nop s |} | [] => None end
+  | KEndif => match r_vf s with _ :: v => Some {| r_stack := st; r_alt := r_alt s; r_vf := v; r_sub := r_sub s; r_nop := r_nop s |} | [] => None end
+  | KVerify => match st with v :: r => if ref_bool v then ret r else None | [] => None end
+  | KReturn => None
+  | KToAlt => match st with v :: r => Some {| r_stack := r; r_alt := v :: r_alt s; r_vf := r_vf s; r_sub := r_sub s; r_nop := r_nop s |} | [] => None end
+  | KFromAlt => match r_alt s with v :: a => Some {| r_stack := v :: st; r_alt := a; r_vf := r_vf s; r_sub := r_sub s; r_nop := r_nop s |} | [] => None end
+  | K2Drop => match st with _ :: _ :: r => ret r | _ => None end
+  | K2Dup => match st with x2 :: x1 :: r => ret (x2 :: x1 :: x2 :: x1 :: r) | _ => None end
+  | K3Dup => match st with x3 :: x2 :: x1 :: r => ret (x3 :: x2 :: x1 :: x3 :: x2 :: x1 :: r) | _ => None end
+  | K2Over => match st with x4 :: x3 :: x2 :: x1 :: r => ret (x2 :: x1 :: x4 :: x3 :: x2 :: x1 :: r) | _ => None end
+  | K2Rot => match st with x6 :: x5 :: x4 :: x3 :: x2 :: x1 :: r => ret (x2 :: x1 :: x6 :: x5 :: x4 :: x3 :: r) | _ => None end
+  | K2Swap => match st with x4 :: x3 :: x2 :: x1 :: r => ret (x2 :: x1 :: x4 :: x3 :: r) | _ => None end
+  | KIfdup => match st with v :: r => if ref_bool v then ret (v :: v :: r) else ret st | [] => None end
+  | KDepth => ret (ref_enc (lenZ st) :: st)
+  | KDrop => match st with _ :: r => ret r | [] => None end
+  | KDup => match st with v :: r => ret (v :: v :: r) | [] => None end
+  | KNip => match st with x2 :: _ :: r => ret (x2 :: r) | _ => None end
+  | KOver => match st with x2 :: x1 :: r => ret (x1 :: x2 :: x1 :: r) | _ => None end
+  | KPickRoll roll =>
       match st with
       | nv :: (_ :: _) as r =>
           match ref_num nv with
           | Some n => if (n <? 0) || (n >=? lenZ r) then None else
                       match nth_error r (Z.to_nat n) with
-                      | Some v => if op =? 0x7a then ret (v :: firstn (Z.to_nat n) r ++ skipn (S (Z.to_nat n)) r) else ret (v :: r)
+                      | Some v => if roll then ret (v :: firstn (Z.to_nat n) r ++ skipn (S (Z.to_nat n)) r) else ret (v :: r)
                       | None => None end
           | None => None end
       | _ => None end
-  | 0x7b => match st with x3 :: x2 :: x1 :: r => ret (x1 :: x3 :: x2 :: r) | _ => None end              (* ROT *)
-  | 0x7c => match st with x2 :: x1 :: r => ret (x1 :: x2 :: r) | _ => None end                          (* SWAP *)
-  | 0x7d => match st with x2 :: x1 :: r => ret (x2 :: x1 :: x2 :: r) | _ => None end                    (* TUCK *)
-  | 0x82 => match st with v :: r => ret (ref_enc (lenZ v) :: v :: r) | [] => None end                   (* SIZE *)
-  | 0x87 | 0x88 =>                                                                                      (* EQUAL EQUALVERIFY *)
-      match st with
-      | x2 :: x1 :: r => let e := bytes_eqb x1 x2 in
-                         if op =? 0x88 then (if e then ret r else None) else ret (of_bool e :: r)
-      | _ => None end
-  | 0xa5 =>                                                                                             (* WITHIN *)
+  | KRot => match st with x3 :: x2 :: x1 :: r => ret (x1 :: x3 :: x2 :: r) | _ => None end
+  | KSwap => match st with x2 :: x1 :: r => ret (x1 :: x2 :: r) | _ => None end
+  | KTuck => match st with x2 :: x1 :: r => ret (x2 :: x1 :: x2 :: r) | _ => None end
+  | KSize => match st with v :: r => ret (ref_enc (lenZ v) :: v :: r) | [] => None end
+  | KEqual => match st with x2 :: x1 :: r => ret (of_bool (bytes_eqb x1 x2) :: r) | _ => None end
+  | KEqualVerify => match st with x2 :: x1 :: r => if bytes_eqb x1 x2 then ret r else None | _ => None end
+  | KWithin =>
       match st with
       | mx :: mn :: x :: r =>
           match ref_num x, ref_num mn, ref_num mx with
           | Some a, Some lo, Some hi => ret (of_bool ((lo <=? a) && (a <? hi)) :: r)
           | _, _, _ => None end
       | _ => None end
-  | 0xa6 => match st with v :: r => ret (ripemd160 v :: r) | [] => None end
-  | 0xa7 => match st with v :: r => ret (sha1 v :: r) | [] => None end
-  | 0xa8 => match st with v :: r => ret (sha256 v :: r) | [] => None end
-  | 0xa9 => match st with v :: r => ret (ripemd160 (sha256 v) :: r) | [] => None end
-  | 0xaa => match st with v :: r => ret (sha256 (sha256 v) :: r) | [] => None end
-  | 0xab => Some {| r_stack := st; r_alt := r_alt s; r_vf := r_vf s; r_sub := rest; r_nop := r_nop s |}   (* CODESEPARATOR *)
-  | 0xac | 0xad =>                                                                                      (* CHECKSIG(VERIFY) *)
+  | KRipemd => match st with v :: r => ret (ripemd160 v :: r) | [] => None end
+  | KSha1 => match st with v :: r => ret (sha1 v :: r) | [] => None end
+  | KSha256 => match st with v :: r => ret (sha256 v :: r) | [] => None end
+  | KHash160 => match st with v :: r => ret (ripemd160 (sha256 v) :: r) | [] => None end
+  | KHash256 => match st with v :: r => ret (sha256 (sha256 v) :: r) | [] => None end
+  | KCodesep => Some {| r_stack := st; r_alt := r_alt s; r_vf := r_vf s; r_sub := rest; r_nop := r_nop s |}
+  | KChecksig vfy =>
       match st with
       | pk :: sig :: r =>
           let code := find_and_delete_ref (r_sub s) (ref_push sig) in
           let ok := do_checksig s sig pk code in
-          if op =? 0xad then (if ok then ret r else None) else ret (of_bool ok :: r)
+          if vfy then (if ok then ret r else None) else ret (of_bool ok :: r)
       | _ => None end
-  | 0xae | 0xaf =>                                                                                      (* CHECKMULTISIG(VERIFY) *)
+  | KMultisig vfy =>
       match st with
       | nv :: r1 =>
           match ref_num nv with
@@ -239,17 +252,16 @@ Definition exec_op (op : Z) (rest : bytes) (s : rstate) : option rstate :=
                           if f_nulldummy fl && negb (is_nil dummy) then None
                           else
                           let s' := {| r_stack := r3; r_alt := r_alt s; r_vf := r_vf s; r_sub := r_sub s; r_nop := nop |} in
-                          if op =? 0xaf then (if ok then Some s' else None)
+                          if vfy then (if ok then Some s' else None)
                           else Some (with_stack s' (of_bool ok :: r3))
                       | [] => None end
                   | None => None end
               | [] => None end
           | None => None end
       | [] => None end
-  | _ =>
-      if (0xb0 <=? op) && (op <=? 0xb9) then (if f_discourage_nops fl then None else ret st)   (* NOP1..NOP10 *)
-      else None                                                   (* RESERVED, VER, VERIF…, 0xba..0xff *)
-  end end.
+  | KNopN => if f_discourage_nops fl then None else ret st
+  | KBad => None
+  end.
 
 (* always-failing opcodes, executed or not: the disabled ones, and VERIF / VERNOTIF *)
 Definition disabled (op : Z) : bool :=
